@@ -315,8 +315,8 @@ class RatNorm:
     """(numerator, denominator) polynomials with rational coefficients of a Real term built from + - * / ; everything else (ite, floor, uninterpreted functions, variables) is an atom identified by its
     term; the fresh sqrt variables of the eraser are identified by the normal form of their radicand.  Equal normal forms (cross-multiplied) => equal values wherever no denominator vanishes."""
     LIMIT = 200000
-    def __init__(s, axioms=()):
-        s.memo = {}; s.atom = {}; s.sq = {}; s.work = 0
+    def __init__(s, axioms=(), exact_approx=False):
+        s.memo = {}; s.atom = {}; s.sq = {}; s.work = 0; s.exact_approx = exact_approx     # exact_approx: read rcpps / rsqrtps as the exact 1/x, 1/sqrt(x) (lowp)
         for ax in axioms:       # And(y >= 0, y*y == x)
             try:
                 e = ax.arg(1); y = ax.arg(0).arg(0); s.sq[y.get_id()] = e.arg(1)
@@ -372,6 +372,10 @@ class RatNorm:
             p, q = s.rf(s.sq[t.get_id()]); return s.var(('sqrt', frozenset(p.items()), frozenset(q.items()))), s.ONE
         if dk == z3.Z3_OP_ITE and z3.is_bool(a[0]):
             return s.var(('ite', s.ckey(a[0]), s.key(a[1]), s.key(a[2]))), s.ONE
+        if dk == z3.Z3_OP_UNINTERPRETED and a and s.exact_approx and t.decl().name() == 'R_x86_rcp':
+            p, q = s.rf(a[0]); return q, p
+        if dk == z3.Z3_OP_UNINTERPRETED and a and s.exact_approx and t.decl().name() == 'R_x86_rsqrt':
+            p, q = s.rf(a[0]); return s.ONE, s.var(('sqrt', frozenset(p.items()), frozenset(q.items())))
         if dk == z3.Z3_OP_UNINTERPRETED and a: return s.var(('uf', t.decl().name()) + tuple(s.key(x) for x in a)), s.ONE
         if dk == z3.Z3_OP_TO_REAL and z3.is_app_of(a[0], z3.Z3_OP_TO_INT): return s.var(('floor', s.key(a[0].arg(0)))), s.ONE
         return s.var(('t', t.get_id())), s.ONE
@@ -583,8 +587,14 @@ def check_pair(S, ua, ub, fn, tag, isas):
     for oi, i, c, on, a, b, x, y in bits:
         pr.prove_eq(vname(on, 'bits'), x, y, oi, i, timeout=S.cap(60, 180), what='[bit-identical; rounding erasure not applicable]')
     if er:
+        lowp = fn.endswith('_lp')
         hy = [h for h in pr.hyps if not _mentions_fp(h)] + list(E.axioms) + ([z3.Not(z3.Or(*E.domain))] if E.domain else [])
-        rn = RatNorm(E.axioms)
+        if lowp:      # lowp may use the approximations: the results must be the pure expression when rcpps / rsqrtps are read as exact
+            for el in er:
+                for t in subterms(el[9]).values():
+                    if z3.is_app(t) and t.decl().kind() == z3.Z3_OP_UNINTERPRETED and t.num_args() == 1 and t.decl().name() == 'R_x86_rcp': hy += [t.arg(0) != 0, t * t.arg(0) == 1]
+                    if z3.is_app(t) and t.decl().kind() == z3.Z3_OP_UNINTERPRETED and t.num_args() == 1 and t.decl().name() == 'R_x86_rsqrt': hy += [t.arg(0) > 0, t > 0, t * t * t.arg(0) == 1]
+        rn = RatNorm(E.axioms, exact_approx=lowp)
         def erased_inputs(m):
             vals = []
             for (c, n), terms in zip(pr.fa.ins, pr.ins):
@@ -597,13 +607,15 @@ def check_pair(S, ua, ub, fn, tag, isas):
                 vals.append(row)
             return vals
         for oi, i, c, on, a, b, x, y, ea, eb in er:
-            b2 = pr.binfo + ' [rounding-erased equality]'; t0 = time.time()
+            b2 = pr.binfo + (' [rounding-erased equality]' if not (lowp and E.approx_ufs) else ' [rounding-erased equality, rcpps/rsqrtps (permitted for lowp) read as the exact 1/x, 1/sqrt x]'); t0 = time.time()
             if rn.equal(ea, eb):
                 S.rec(name=vname(on, 'real'), kind='diff', functions=pr.fnlist, bounds=b2, solver='rational-function normal form (exact polynomial arithmetic over the erased term)', result='unsat', time_s=round(time.time() - t0, 3), status='discharged', mandatory=mand)
                 continue
             def rp(m, oi=oi, i=i): return pr.replay_vals(erased_inputs(m), oi, i, tol=2e-3 if ct_bits(c) == 32 else 1e-6)
             S.prove(vname(on, 'real'), ea == eb, hy, timeout=S.cap(40, 120), solver='z3', kind='diff', functions=pr.fnlist, bounds=b2, replay=rp, mandatory=mand)
-        if E.approx_ufs:
+        if lowp:
+            S.rec(name=pr.nm + '.approx-only-lowp', kind='structure', functions=pr.fnlist, bounds=pr.binfo, solver='term DAG inspection', result='unsat', time_s=0.0, status='discharged', mandatory=mand, note='lowp result; approximation intrinsics reachable: %s' % (sorted(E.approx_ufs) or 'none'))
+        elif E.approx_ufs:
             S.rec(name=pr.nm + '.no-approx', kind='structure', functions=pr.fnlist, bounds=pr.binfo, solver='term DAG inspection', result='sat', time_s=0.0, status='counterexample', mandatory=mand,
                   note='hardware approximation %s reachable from a non-lowp result' % sorted(E.approx_ufs))
             S.violations.append((pr.nm + '.no-approx', {'unit': ua.name, 'unit_b': ub.name, 'fn': fn, 'note': 'x86 approximation intrinsic %s feeds a non-lowp result' % sorted(E.approx_ufs)}))
